@@ -635,6 +635,10 @@ func (p *GraphProg) Tags() (tags map[string]map[string]string, slots [][]string)
 				t["S5"] = "zz-plain,required=false"
 			case "custom-opt":
 				t["S5"] = "usertag|whatever,required=false"
+			case "namequal-req": // the named component exists and fits, but does not carry the requested qualifier
+				t["S5"] = Name((i+1)%p.N, p.N) + ",qualifier=nope"
+			case "namequal-opt":
+				t["S5"] = Name((i+1)%p.N, p.N) + ",qualifier=nope,required=false"
 			}
 		}
 		opt := ""
